@@ -13,8 +13,10 @@ Choose ==
   /\ CASE stage = 0 -> \E len \in 1..MaxLen : cfg' = [len |-> len]
        [] stage = 1 -> \E lo \in 0..(cfg.len - 1), hi \in 1..cfg.len : lo < hi /\ cfg' = cfg @@ [lo |-> lo, hi |-> hi]
        [] stage = 2 -> \E ls \in -1..(cfg.hi - cfg.lo - 1) : cfg' = cfg @@ [ls |-> ls]
-       [] stage = 3 -> IF cfg.ls = -1 THEN cfg' = cfg @@ [le |-> -1]
-                       ELSE \E le \in (cfg.ls + 1)..(cfg.hi - cfg.lo) : cfg' = cfg @@ [le |-> le]
+       [] stage = 3 -> IF cfg.ls = -1 THEN cfg' = cfg @@ [le |-> -1, open |-> FALSE]
+                       \* (open: the loop region is written ls.. - its end is the end of the audio, i.e. of the slice)
+                       ELSE \E le \in (cfg.ls + 1)..(cfg.hi - cfg.lo), open \in BOOLEAN :
+                              cfg' = cfg @@ [le |-> IF open THEN cfg.hi - cfg.lo ELSE le, open |-> open /\ TRUE]
        [] stage = 4 -> \E start \in 0..((IF cfg.ls = -1 THEN cfg.hi - cfg.lo ELSE cfg.le) - 1) : cfg' = cfg @@ [start |-> start]
        [] stage = 5 -> \E rate \in Rates, pk \in {1, 2, 3, 7}, early \in 0..2 : cfg' = cfg @@ [rate |-> rate, pk |-> pk, early |-> early]
 Cmd ==
